@@ -31,7 +31,7 @@ ASSUMPTIONS = ["round 1 may normalise arbitrarily (or reject the interface: coun
 
 def streams(ctx):
     return [("wide", ctx.scale(600, 5000)), ("legal", ctx.scale(350, 3000)), ("announced", ctx.scale(400, 3000)),
-            ("undocumented", ctx.scale(300, 2000))]
+            ("undocumented", ctx.scale(300, 2000)), ("similar", ctx.scale(150, 1500))]
 
 
 def gen_case(ctx, stream, idx):
@@ -49,6 +49,8 @@ def gen_case(ctx, stream, idx):
                            with_return=False, all_defaults=r.random() < 0.7)
         if r.random() < 0.2:
             ir["doc"] = ""
+    elif stream == "similar":
+        ir = irgen.similar_ir(r, with_return=r.random() < 0.4, all_defaults=r.random() < 0.5)
     elif stream == "announced":
         # hand-written descriptions that announce their default in prose (any spelling) and carry no default key yet:
         # round 1 extracts the default, rounds 2..4 must not re-announce it
